@@ -36,5 +36,6 @@ PROPS = {
     "C10": {"jobs": [enum("TestC10Single"), rapid("TestC10Multi", 2500, 8000)]},
     "C06": {"jobs": [rapid("TestC06", 1200, 8000), enum("TestC06AllTTLs"), enum("TestC06UDP6ChecksumSearch")]},
     "C20": {"jobs": [enum("TestC20Table"), rapid("TestC20", 2000, 2000)]},
+    "C15": {"jobs": [rapid("TestC15", 2500, 8000)]},
     "C19": {"jobs": [rapid("TestC19", 3000, 8000), enum("TestC19Extremes")]},
 }
